@@ -61,20 +61,23 @@ class C06(Check):
         out += [("cli", *s[1:]) for s in c03_cli.shards(tier)]
         for buf in (1, 2, 3, 4, 11):
             out.append(("pair", buf))
+        for buf in (2, 11):
+            for eol in ("LF+blank", "CRLF", "LF-nofinal"):
+                out.append(("pair", buf, eol))
         return out
 
-    def host_pair(self, buf, ctx):
+    def host_pair(self, buf, ctx, eol="LF"):
         """FASTA + AGP written from one assembly object (what pretext-to-asm does for -o x.fa): record length == AGP object end"""
         from mc.checks import c03
         from tola.assembly.assembly import Assembly
         from tola.fasta.stream import FastaStream
 
-        fi = c03.CHECK.make_index(4, "LF", buf)
+        fi = c03.CHECK.make_index(4, eol, buf)
         rows = [r for r in c03.all_rows(c03.BUFFERS) if not (r[0] == "G" and r[1] == 0)]  # AGP cannot express a 0-length gap
         for r1 in rows:
             for r2 in [None, *rows]:
                 rr = [r1] if r2 is None else [r1, r2]
-                case = ["pair", buf, [list(r) for r in rr]]
+                case = ["pair", buf, [list(r) for r in rr]] + ([eol] if eol != "LF" else [])
                 ctx.cur = case
                 ctx.evaluations += 1
                 ctx.nontrivial += 1
@@ -223,7 +226,7 @@ class C06(Check):
 
             c03_cli.run_shard(self, ("cli", *shard[1:]), ctx, validate_only=True)
         elif kind == "pair":
-            self.host_pair(shard[1], ctx)
+            self.host_pair(shard[1], ctx, *(shard[2:3]))
 
     def replay(self, case, ctx):
         kind = case[0]
@@ -240,9 +243,10 @@ class C06(Check):
 
             c03_cli.replay(self, case, ctx)
         elif kind == "pair":
-            self.host_pair(case[1], ctx)
+            self.host_pair(case[1], ctx, *(case[3:4]))
 
 
 CHECK = C06()
 # scope added in later rounds, kept in the evidence text
 CHECK.rule += " CLI slice: every sixth case also with a stale cache whose mtime equals the rewritten FASTA's."
+CHECK.rule += ' FASTA+AGP pair host also on inputs with an empty line between records, CRLF, and no final newline.'
